@@ -1,6 +1,6 @@
 (* C09: case vocabulary, executable model runner and property predicate.
    The model follows the code WITH the repairs F01, F02, F03, F06, F12, F17. *)
-From OIDC Require Export Lib C09_Json C09_Codec C09_Verifier C09_Handler C09_Client C09_Crypto C09_Header C09_Auth C09_ReqObj.
+From OIDC Require Export Lib C09_Json C09_Codec C09_Verifier C09_Handler C09_Client C09_Crypto C09_Header C09_Auth C09_ReqObj C09_Redirect.
 
 (* per-case oracle tables, filled by the harness with the real functions' answers
    for every string of the document *)
@@ -51,7 +51,7 @@ Definition decode (t : tables) (d : dkind) (j : json) : cls :=
   end.
 
 (* free-form fuzz of the routers: only the class of the answer is observed *)
-Inductive rkind := RSingle | RPanic | RDouble | RContinued.
+Inductive rkind := RSingle | RPanic | RDouble | RContinued | RHang.
 
 Inductive input :=
 | IDecode (d : dkind) (member : bool) (j : json) (t : tables)
@@ -65,6 +65,7 @@ Inductive input :=
     (* GET /userinfo with the Authorization header h; opens = which strings the provider accepts as an access token *)
 | IAuth (a : ashape)                                 (* otherwise valid request with live artefacts: assertion type x assertion x Basic x private_key_jwt option *)
 | IReqObj (r : rshape)                               (* valid authorization request carrying a `request` object of that make-up *)
+| INative (n : nshape)                               (* authorization request of a native client: registration x requested redirect_uri *)
 | IRoute (e : entry) (class : nat) (req : string)    (* arbitrary route x method x header x body; class = generator family (>0);
                                                         req = digest of the request bytes (identifies the case; never inspected) *)
 | IClient (h : helper) (a : answer) (expect : string) (t : tables)
@@ -92,6 +93,7 @@ Definition model (i : input) : observed :=
   | IBearer _ h opens => OHandler (bearer_userinfo (fun s => s) (opens_of opens) false h)
   | IAuth a => OHandler (ahandler all_return a)
   | IReqObj r => OHint (ro_handler true r)
+  | INative n => OHint (native_redirect true n)
   | IRoute _ _ _ => ORoute RSingle
   | IClient h a e t => OClient (call (time_of t) (lang_of t) true h a e)
   | IDevice dev tok t => OClient (device_flow (time_of t) (lang_of t) true dev tok)
@@ -114,14 +116,15 @@ Definition spec (i : input) (o : observed) : bool :=
   | IBearer _ _ _, OHandler h => single h
   | IAuth _, OHandler h => single h
   | IReqObj _, OHint r => match r with HRefused | HAccepted => true | _ => false end
+  | INative _, OHint r => match r with HRefused | HAccepted => true | _ => false end
   | IRoute _ _ _, ORoute k => match k with RSingle => true | _ => false end
   | IClient _ a _ _, OClient c =>      (* a 200 body that is not a JSON document must come back as an error *)
       match c with
-      | CPanic => false
+      | CPanic | CHang => false
       | CRetOk => negb (a_ok a) || well_formed (a_body a)
       | CRetErr => true
       end
-  | IDevice _ _ _, OClient c => match c with CPanic => false | _ => true end
+  | IDevice _ _ _, OClient c => match c with CPanic | CHang => false | _ => true end
   | IOpaque _, ODecode c => match c with KPanic => false | _ => true end
   | IUserCode _ _ _, OUserCode c => match c with KPanic => false | _ => true end
   | _, _ => false
@@ -139,9 +142,9 @@ Definition cls_eqb (a b : cls) : bool :=
 Definition vres_eqb (a b : vres) : bool :=
   match a, b with VParseErr, VParseErr | VPast, VPast | VPanic, VPanic => true | _, _ => false end.
 Definition cres_eqb (a b : cres) : bool :=
-  match a, b with CRetOk, CRetOk | CRetErr, CRetErr | CPanic, CPanic => true | _, _ => false end.
+  match a, b with CRetOk, CRetOk | CRetErr, CRetErr | CPanic, CPanic | CHang, CHang => true | _, _ => false end.
 Definition rkind_eqb (a b : rkind) : bool :=
-  match a, b with RSingle, RSingle | RPanic, RPanic | RDouble, RDouble | RContinued, RContinued => true | _, _ => false end.
+  match a, b with RSingle, RSingle | RPanic, RPanic | RDouble, RDouble | RContinued, RContinued | RHang, RHang => true | _, _ => false end.
 Definition errcode_eqb (a b : errcode) : bool :=
   match a, b with
   | EInvalidRequest, EInvalidRequest | EInvalidClient, EInvalidClient | EInvalidGrant, EInvalidGrant
@@ -199,12 +202,14 @@ Definition path (i : input) (o : observed) : nat :=
       match o with OGrant => 64 | OResp _ _ => if sent (au_assert a) then 65 else 66 | _ => 67 end
   | IReqObj r, OHint o =>
       match o with HAccepted => 70 | HRefused => if ro_supported r && ro_parses r then 71 else 72 | _ => 73 end
+  | INative n, OHint o =>
+      match o with HAccepted => if n_listed n then 74 else 75 | HRefused => if n_loopback n then 76 else 77 | _ => 78 end
   | IRoute _ c _, _ => 20 + c
   | IClient _ a _ _, OClient c =>
       if negb (a_ok a) then 11
-      else match c with CRetOk => 12 | CRetErr => 13 | CPanic => 14 end
+      else match c with CRetOk => 12 | CRetErr => 13 | _ => 14 end
   | IUserCode _ _ _, _ => 15
-  | IDevice _ _ _, OClient c => match c with CRetOk => 43 | CRetErr => 44 | CPanic => 45 end
+  | IDevice _ _ _, OClient c => match c with CRetOk => 43 | CRetErr => 44 | _ => 45 end
   | IOpaque o, ODecode c => match c with KOk => 46 | KErr => if ot_other o then 47 else 48 | KPanic => 49 end
   | _, _ => 0
   end.
